@@ -30,6 +30,7 @@ TInit ==
     /\ rdig = Empty /\ fileOK = [r \in Roles |-> {}] /\ stopped = [r \in Roles |-> "no"]
     /\ dst = [f \in 1..1 |-> Empty] /\ made = {} /\ result = [r \in Roles |-> "run"]
     /\ faults = 0 /\ told = [r \in Roles |-> FALSE]
+    /\ paused = FALSE /\ npause = 0 /\ quiet = 0 /\ maxquiet = 0
     /\ l = 1 /\ phase = "idle" /\ md5hex = "" /\ allsame = TRUE
 
 TReset ==
@@ -108,7 +109,7 @@ TFs ==
 
 TNext == TReset \/ TSkip \/ TSilent \/ TAct \/ TCfg \/ TNum \/ TName \/ TSize \/ TComp \/ TData \/ TMd5 \/ TSucc
          \/ TExit \/ TRet \/ TFs
-TSpec == TInit /\ [][TNext]_tvars
+TSpec == TInit /\ [][TNext /\ UNCHANGED PauseVars]_tvars
 
 -----------------------------------------------------------------------------
 (* the destination the model predicts from the messages is the destination observed *)
